@@ -1,9 +1,6 @@
 HOOK_COMMITS = ['c1c434b', '878b954']
 NOTES = ('All checks are driven by bin/check <ID> --tier quick|thorough; exit 0/1/2 as described in DESIGN.md 2.4. '
          'known_findings.json lists recorded defects and fixed ones.')
-_pending = 'check not built yet in this revision (see DESIGN.md); will be claimed when its specification and harness exist'
-for _p in ['C05','C11','C13']:
-    NA[_p] = _pending
 NA['C01'] = ('power balance needs numerical integration of the reported pattern over the sphere and a 1.5 % physical '
              'tolerance of the true kernel: numeric accuracy with no discrete content, nothing a TLA+ specification can decide (DESIGN.md section 5)')
 
@@ -192,3 +189,37 @@ check('C03', 'exploration',
       'condition-number rule).',
       'Exploration level: structure and counts by TLC, numeric agreement is a comparison of implementation outputs; measured deviations below 3e-9.',
       'TLC (TopologyOn.tla) on ground and mirror model + solved comparison through the pulse bijection', 'DESIGN.md 4 C03')
+
+check('C05', 'exploration',
+      'spec/Transform.tla (TLC) enumerates every transformation program of up to three rotate / translate options (equal and different sort '
+      'keys, tagged and untagged) and up to two scale options and gives the per-object sequence of elementary maps (invariants ScaleLast, '
+      'KeyOrder, Scope). Replay through main(): (i) the segment end points, segment lengths and radii of the transformed wire / arc / helix '
+      'equal the elementary maps (rotation about X then Y then Z, translation, scaling incl. radius last) applied by the harness in the '
+      "specification's order to the untransformed segmentation (1e-9) -- option form = coordinates; (ii) every whole-structure program is "
+      'solved on a bent three-wire antenna with a lumped load: feed impedance and currents equal those of the untransformed antenna (f/s for '
+      'scaling by s in 0.01..100), the gain moves rigidly with the antenna (free space: arbitrary multi-axis rotations and shifts of many '
+      'wavelengths; ideal ground: z-rotations and horizontal shifts, V and H separately), tolerance of the property with its condition rule.',
+      'Exploration level: order / scope by TLC; angles, shifts and factors are seeded; physics on one antenna per environment.',
+      'TLC enumeration of transformation programs (Transform.tla) + replay: geometry equality and solved invariance', 'DESIGN.md 4 C05, 3.5')
+check('C13', 'exploration',
+      'Discrete part by TLC: Transform.tla (order by sort key, rotations before translations among equal keys, scaling last, tag scope) and '
+      'Topology.tla SegJoint (n chained segments per object). Numeric predicates on the real segmentation over seeded parameters: exactly n '
+      'segments of positive length chaining from first to last end point (n up to 200, arbitrary orientation, also when the last transformation '
+      'is a rotation); equal lengths for plain wires; 12 taper classes (end 1/2/3 x min given or not x max given or not): neighbour ratio <= 2.1 '
+      'growing from the tapered end(s), every length >= max(2.5 r, min) and <= max, end-2 taper is the mirror of end-1 taper, two-sided taper '
+      'symmetric; arcs (either sense) on the circle at uniform angles from ang1; helices for every sign of length and turn length, circular / '
+      'elliptical, radius-tapered: uniform z, on the (tapered) ellipse, angle and handedness as documented, including the last point; '
+      'transformation programs replayed on wire + arc + helix as in C05 (i).',
+      'Exploration level; parameter sets the program rejects are not counted (C20). Bounds carry a relative slack of 1e-6.',
+      'TLC (Transform.tla, Topology.tla) for order and structure + numeric predicates on the real segmentation', 'DESIGN.md 4 C13')
+check('C11', 'exploration',
+      'spec/Media.tla (TLC) models the medium chain and the lookup by reflection distance and checks SameLookup for every split of a medium '
+      'into adjacent pieces with identical constants and every extension beyond all reflection distances (chains of up to three media); every '
+      '(chain, variant) pair is replayed on real antennas (vertical, inverted L, horizontal dipole, sloper with two sources; on and off the axis; '
+      'linear and circular boundaries; radials; azimuth sectors), the interface positions being placed by the harness inside / beyond the '
+      'reflection distances it computes from pulse positions and directions: currents, matrix and impedances must be bitwise identical to ideal '
+      'ground, chain and variant must give identical patterns (1e-9 dB); conductivity 1e12 must reproduce the ideal-ground pattern above '
+      'grazing (0.01 dB).',
+      'Exploration level: lookup equivalences by TLC; geometry, constants and directions seeded. Splitting the FIRST medium under a radial screen '
+      'is excluded (the screen reaches to the first interface, so that is a different antenna).',
+      'TLC on Media.tla + replay of every chain/variant pair on real antennas', 'DESIGN.md 4 C11, 3.7')
